@@ -522,6 +522,7 @@ func (c *Client) HandshakingState(e *am.Event) {
 			Id:        resp.Serialized.ID,
 			MachTime:  resp.Serialized.Time,
 			QueueTick: resp.Serialized.QueueTick,
+			MachTick:  resp.Serialized.MachineTick,
 		}))
 	})
 }
